@@ -183,6 +183,25 @@ def run(ch, build):
             hs.open_step(suites=[su]), {"op": "bmcset", "bmcset": {"dcmisensors": table, "pagesize": 2}},
             {"op": "dcmisensorinfo", "conn": "session", "table": table, "page": 2, "fam": "ipmi", "script": ["ok"] * errat + ["cc:201"], "errat": errat}]}
         scns2.append(s); meta.append((len(scns2) - 1, 2))
+    # a BMC that announces more instances than it serves (its total counts sensors it then does not list): the pages run
+    # dry, and the enumeration ends there with what was served - it does not ask for ever
+    over = []
+    for k, (n, p, extra) in enumerate([(0, 1, 1), (3, 1, 1), (5, 2, 7), (8, 8, 1), (9, 4, 200), (17, 8, 3), (30, 5, 225)]):
+        su = hist.SUITES[k % 9]
+        table = {"55": [rng.randrange(65536) for _ in range(n)], "3": [rng.randrange(65536) for _ in range(2)], "7": []}
+        over.append({"bmc": conn.default_bmc(seed=10, suites=[[100, su[0], su[1], su[2]]], dcmisensors=table, pagesize=p, overcount=extra),
+                     "timeout_ms": 40, "table": table, "steps": [hs.open_step(suites=[su]), {"op": "dcmisensorinfo", "conn": "session", "ctx_ms": 15000}]})
+    for scn, out in zip(over, conn.run_scenarios(over)):
+        res = out["steps"][1]
+        t = scn["table"]
+        want = "inlet=%s cpu=%s baseboard=%s" % tuple("[" + " ".join(str(x) for x in t[e]) + "]" for e in ("55", "3", "7"))
+        impl = res.get("value", "") if res["err"] == "nil" else "err:" + res["err"]
+        ch.note_case("c16-dcmi-overcount", "%s|%s" % (t, scn["bmc"]["overcount"]))
+        nmax = sum(-(-len(t[e]) // scn["bmc"]["pagesize"]) + 1 for e in ("55", "3", "7")) + 8
+        if res.get("panic") or res.get("runaway") or impl != want or len(res["sent"]) > nmax:
+            ch.violation({"kind": "c16-dcmi", "family": "overcount", "page": scn["bmc"]["pagesize"]},
+                         {"scenario": scn, "what": "the BMC announces %d more instances than it serves: expected the served IDs after at most %d requests"
+                          % (scn["bmc"]["overcount"], nmax), "impl": impl[:300], "want": want[:300], "requests": len(res["sent"]), "runaway": res.get("runaway")})
     outs2 = conn.run_scenarios(scns2)
     lines = []
     for (si, ti) in meta:
